@@ -250,6 +250,16 @@ def handleSrvMsg (st : SrvSt) (c : Nat) (m : Msg) (ops : List Op) (resps : List 
       let st := match l.find? (fun e => acked.any (fun a => a.1 == e.1.id) && e.1.elec != st.annLast.get? c) with
         | some e => st.monfail "c04" s!"operation {e.1.id} of session {c} acknowledged although its election id {showElec e.1.elec} is not the id that session last announced ({showElec (st.annLast.get? c)})"
         | none => st
+      -- the converse: the session that last announced the highest id, stamping that id, is the
+      -- primary — its operations pass the election gate. Judged on an operation that cannot fail
+      -- for any other reason: a well-formed ADD of a next-hop in an instance the server has
+      -- (nothing to resolve, nothing to replace illegally)
+      let failedIds := (allResults.filter (fun x => x.2 == AftStatus.failed)).map (·.1)
+      let st := match l.find? (fun e => sessOk && st.annMaster == some c && e.1.elec.isSome && e.1.elec == st.annMax &&
+            e.1.elec == st.annLast.get? c && e.1.cls == Cls.wf && e.1.ty == OpType.add && st.rs.model.nis.contains e.1.ni &&
+            (match e.1.key with | .nh i => i != 0 | _ => false) && failedIds.contains e.1.id) with
+        | some e => st.monfail "c04" s!"operation {e.1.id} of session {c} — the last announcer of the highest id {showElec st.annMax}, stamped with it; a well-formed ADD of a next-hop — was answered FAILED: the primary is locked out"
+        | none => st
       let malformedOnly := l.all (fun e => e.1.cls != Cls.wf || e.1.ty == OpType.invalid || e.1.ni == "")
       let st := if malformedOnly && l.any (fun e => acked.any (fun a => a.1 == e.1.id))
         then st.monfail "c12" "a malformed operation was acknowledged as programmed" else st
